@@ -12,6 +12,7 @@ import (
 	"net"
 	"sort"
 	"strings"
+	"time"
 	"sync/atomic"
 
 	"github.com/c2FmZQ/ech"
@@ -761,6 +762,163 @@ func hostile(r *ev.Run, srv *dohmem.Server) {
 				r.Eval("hostile-server-name:"+desc, oc)
 			}
 		}
+		// targets whose labels contain dots or backslashes (legal octets of a label): the follow-up queries ask for exactly
+		// that name - same labels - and are well-formed
+		wireName := func(labels []string) []byte {
+			var b []byte
+			for _, l := range labels {
+				b = append(append(b, byte(len(l))), l...)
+			}
+			return append(b, 0)
+		}
+		for _, ls := range [][]string{{"a.", "example", "com"}, {"w.w", "com"}, {strings.Repeat("\\", 40), "com"}, {"a\\b", "com"}, {"www", "com."}, {".", "com"}} {
+			for _, prio := range []byte{0, 1} {
+				srv.Reset()
+				srv.Zone = func(name string, t uint16) dohmem.Answer {
+					if name != "o.example" {
+						return dohmem.Answer{}
+					}
+					if t == 65 {
+						m := []byte{0, 0, 0x81, 0x80, 0, 1, 0, 1, 0, 0, 0, 0, 1, 'o', 7, 'e', 'x', 'a', 'm', 'p', 'l', 'e', 0, 0, 65, 0, 1}
+						rd := append([]byte{0, prio}, wireName(ls)...)
+						m = append(m, 1, 'o', 7, 'e', 'x', 'a', 'm', 'p', 'l', 'e', 0, 0, 65, 0, 1, 0, 0, 0, 60, byte(len(rd)>>8), byte(len(rd)))
+						return dohmem.Answer{Raw: append(m, rd...)}
+					}
+					if t == 1 {
+						return dohmem.Answer{Records: []dnsref.RR{{Name: "o.example", Type: 1, Class: 1, TTL: 60, Fields: []dnsref.Field{{Raw: ipX4}}}}}
+					}
+					return dohmem.Answer{}
+				}
+				res, _ := ech.NewResolver("https://doh.test/dns-query")
+				var err error
+				panicked := any(nil)
+				func() {
+					defer func() { panicked = recover() }()
+					_, err = res.Resolve(context.Background(), "o.example")
+				}()
+				desc := fmt.Sprintf("priority %d target with labels %q", prio, ls)
+				if panicked != nil {
+					r.Violation("panic:hostile-server-name", fmt.Sprintf("Resolve(\"o.example\") panicked on an answer with %s: %v", desc, panicked), desc)
+				}
+				want := strings.Join(ls, ".") // (the log joins the labels of the query it parsed with dots)
+				asked := false
+				for i, q := range srv.Queries() {
+					if q.Name == dohmem.Unparseable {
+						r.Violation("malformed-query-sent:hostile-server-name:label-with-dot", fmt.Sprintf("Resolve(\"o.example\"), answered with %s, then sent a message that is not well-formed RFC 1035 (query %d)", desc, i), desc)
+						break
+					}
+					if q.Name == want {
+						asked = true
+					} else if q.Name != "o.example" {
+						r.Violation("other-name-queried:label-with-dot", fmt.Sprintf("Resolve(\"o.example\"), answered with %s, then asked for %q (labels joined with dots), which is another name", desc, q.Name), desc)
+						break
+					}
+				}
+				oc := "dotted target -> not followed"
+				if asked {
+					oc = "dotted target -> followed"
+				}
+				if err != nil {
+					oc += " (error)"
+				}
+				r.Eval("hostile-server-name:"+desc, oc)
+			}
+		}
+		// the 255-octet limit holds for the whole name, also when its tail is reached through a compression pointer: an alias target
+		// of 40 literal octets followed by a pointer to the (253-octet) question name
+		{
+			var qls []string
+			for i := 0; i < 4; i++ {
+				qls = append(qls, label(62))
+			}
+			qname := strings.Join(qls, ".") // 4 x 63 octets + root = 253 octets on the wire
+			srv.Reset()
+			srv.Zone = func(name string, t uint16) dohmem.Answer {
+				if name != qname || t != 65 {
+					return dohmem.Answer{}
+				}
+				m := []byte{0, 0, 0x81, 0x80, 0, 1, 0, 1, 0, 0, 0, 0}
+				m = append(append(m, wireName(qls)...), 0, 65, 0, 1)
+				rd := append(append([]byte{0, 0, 39}, label(39)...), 0xc0, 12)
+				m = append(m, 0xc0, 12, 0, 65, 0, 1, 0, 0, 0, 60, byte(len(rd)>>8), byte(len(rd)))
+				return dohmem.Answer{Raw: append(m, rd...)}
+			}
+			res, _ := ech.NewResolver("https://doh.test/dns-query")
+			_, err := res.Resolve(context.Background(), qname)
+			for _, q := range srv.Queries() {
+				if q.Name == dohmem.Unparseable || len(q.Name) > 253 {
+					r.Violation("malformed-query-sent:hostile-server-name:pointer-to-long-name", fmt.Sprintf("an alias target made of 40 literal octets and a pointer to the 253-octet question name (294 octets in all) was accepted; Resolve then sent a query for a %d-byte name", len(q.Name)), "pointer-to-long-name")
+					break
+				}
+			}
+			oc := "over-long through pointer -> result"
+			if err != nil {
+				oc = "over-long through pointer -> error"
+			}
+			r.Eval("hostile-server-name:pointer-to-long-name", oc)
+		}
+		// an alias loop through names with upper-case letters (self-alias; A -> B -> A): Resolve returns
+		for _, loop := range [][]string{{"Loop.example"}, {"o.example", "Bb.example"}, {"o.example", "bb.example", "Cc.example", "bb.example"}} {
+			srv.Reset()
+			next := map[string]string{}
+			for i, n := range loop {
+				next[n] = loop[(i+1)%len(loop)]
+			}
+			if len(loop) == 4 { // o -> bb -> Cc -> bb
+				next = map[string]string{"o.example": "bb.example", "bb.example": "Cc.example", "Cc.example": "bb.example"}
+			}
+			srv.Zone = func(name string, t uint16) dohmem.Answer {
+				if to, ok := next[name]; ok && t == 65 {
+					return dohmem.Answer{Records: []dnsref.RR{{Name: name, Type: 65, Class: 1, TTL: 60, Fields: dnsref.SVCB(0, to, nil)}}}
+				}
+				if t == 1 {
+					return dohmem.Answer{Records: []dnsref.RR{{Name: name, Type: 1, Class: 1, TTL: 60, Fields: []dnsref.Field{{Raw: ipX4}}}}}
+				}
+				return dohmem.Answer{}
+			}
+			res, _ := ech.NewResolver("https://doh.test/dns-query")
+			done := make(chan error, 1)
+			ctx, cancel := context.WithCancel(context.Background())
+			go func() {
+				defer func() {
+					if p := recover(); p != nil {
+						done <- fmt.Errorf("panic: %v", p)
+					}
+				}()
+				_, err := res.Resolve(ctx, loop[0])
+				done <- err
+			}()
+			oc := "mixed-case alias loop -> returns"
+			select {
+			case <-done:
+			case <-time.After(20 * time.Second):
+				// (generous: a lookup through the in-memory responder takes microseconds; the loop is cut after at most 5 names)
+				cancel()
+				oc = "mixed-case alias loop -> NEVER RETURNS"
+				r.Violation("resolve-never-returns:mixed-case-alias-loop", fmt.Sprintf("Resolve(%q) with the alias loop %v had not returned after 20 s and %d queries", loop[0], loop, len(srv.Queries())), fmt.Sprint(loop))
+			}
+			cancel()
+			if n := len(srv.Queries()); n > 40 {
+				r.Violation("unbounded-queries:mixed-case-alias-loop", fmt.Sprintf("Resolve(%q) with the alias loop %v sent %d queries", loop[0], loop, n), fmt.Sprint(loop))
+			}
+			r.Eval("alias-loop-mixed-case:"+fmt.Sprint(loop), oc)
+		}
+		// ports that are no port numbers: nothing may be asked about the port they would be if cut to 16 bits
+		for _, in := range []string{"o.example:73979", "o.example:+8443", "https://o.example:73979/", "o.example:65536", "o.example:8443x"} {
+			srv.Reset()
+			srv.Zone = func(name string, t uint16) dohmem.Answer { return dohmem.Answer{} }
+			res, _ := ech.NewResolver("https://doh.test/dns-query")
+			got, err := res.Resolve(context.Background(), in)
+			for _, q := range srv.Queries() {
+				if strings.HasPrefix(q.Name, "_8443.") || strings.HasPrefix(q.Name, "_0.") {
+					r.Violation("invalid-port-truncated", fmt.Sprintf("Resolve(%q) asked for %q: the port was cut to 16 bits (result port %d, err %v)", in, q.Name, got.Port, err), in)
+				}
+			}
+			if err == nil && (got.Port == 8443 || got.Port == 0) {
+				r.Violation("invalid-port-truncated", fmt.Sprintf("Resolve(%q) reports port %d", in, got.Port), in)
+			}
+			r.Eval("invalid-port:"+in, "invalid port -> not truncated")
+		}
 		srv.Zone = z.answer
 	}
 	var inputs []string
@@ -789,6 +947,7 @@ func hostile(r *ev.Run, srv *dohmem.Server) {
 	}
 	// empty labels that only appear in the COMPLETE query name (_port._scheme.host): in the scheme, or a root host with a port
 	inputs = append(inputs, ".:8443", "a..b://o.example:123", "foo.://o.example", ".foo://o.example:123", "a.b://o.example:123", "foo://.:123", "..://o.example:1")
+	inputs = append(inputs, "o.example\\", "abc\\", "\\", "a\\.b.example", "https://o.example\\/", "o.example\\:8443")
 	inputs = append(inputs, "o.example..", "o.example..:8443", "https://o.example../x", "o.example...", ".o.example", "", ".", "..", "a..b", ":", ":443", "://", "https://", "https://:443", "o.example:99999", "o.example:0", "o.example:-1", "[::1", "o.example:443:443", "https://o.example:port/", "\x00", "o\x00.example", strings.Repeat(".", 300))
 	for _, in := range inputs {
 		srv.Reset()
